@@ -18,4 +18,5 @@ PROP = dict(
     level_text="TLC explores every interleaving of the controller steps of Start/Restart/Stop/casket.Stop with the server goroutines and Wait()ers for all histories up to the bound and checks the callback-count/order invariants and the WaitGroup accounting; every history is then executed against the real package (scriptable server type registered through the public plugin API, real loopback sockets for the fd hand-over) and the recorded event trace must be a behaviour of the specification with all invariants holding at every step.",
     level_note="Trusted: TLC; the scriptable server type (harness/faketype) reports its own steps truthfully; callbacks that return errors are exercised only for OnStartup and OnRestart; process-level shutdown (signals, OnFinalShutdown) is covered by the child-process part.",
     assumptions=["one callback per list per instance", "shutdown callbacks that return errors are out of scope (see DESIGN.md)"],
+    selftest_expects_mismatch=True,
 )
